@@ -69,6 +69,22 @@ func reprEscape(s string, delim byte, w io.Writer) {
 }
 
 func reprString(str String, w io.Writer) {
+	if str.holes > 0 {
+		// A sparse string has no literal form; spell out its char tuples so that the
+		// printed form reads back as the same set.
+		fmt.Fprint(w, "{")
+		n := 0
+		for i, r := range str.s {
+			if r < 0 {
+				continue
+			}
+			writeSep(w, n, ", ")
+			fu.FRepr(w, NewStringCharTuple(str.offset+i, r))
+			n++
+		}
+		fmt.Fprint(w, "}")
+		return
+	}
 	reprOffset(str.offset, w)
 	reprStr(string(str.s), w)
 }
